@@ -406,36 +406,20 @@ theorem raw_file_spec (k : Option K) (hk : k ≠ some 0) (iv : Option Nat) (cs :
     rw [calls_getY _ hk]
     simp [Mon.getY]
 
-/-- **support / converge file, the code as it is.**  FULL CLAIM (not true): `costViaCopy = cs.map (·.y)`.
-`write_support_file` and `write_converge_file` copy `mon.y` (already un-scaled) into a new monitor and then set
-`k` on the copy, so the costs in the file are the recorded costs divided by `k` once more; they are the recorded
-costs exactly when `k` is `None` or `1`. -/
-theorem support_cost_partial (k : Option K) (hk : k ≠ some 0) (iv : Option Nat) (cs : List (Call K)) :
+/-- **support / converge file costs.** `write_support_file` and `write_converge_file` of a fresh monitor (any
+`k ≠ 0`) after the calls `cs` store exactly the recorded costs: the copy they write from is built with
+`write_monitor(..., k=mon.k)`, which multiplies the un-scaled costs by `k` before `write_raw_file` divides them
+again (field statement; in binary64 each of these steps rounds - finding F13). -/
+theorem support_cost_spec (k : Option K) (hk : k ≠ some 0) (iv : Option Nat) (cs : List (Call K)) :
     let m := Mon.calls ({ k := k, interval := iv } : Mon K) cs
-    m.costViaCopy = cs.map (fun c => cdiv k c.y) ∧
-    ((k = none ∨ k = some 1) → m.costViaCopy = cs.map (·.y)) := by
+    m.costViaCopy = cs.map (·.y) := by
   intro m
-  have h1 : m.costViaCopy = cs.map (fun c => cdiv k c.y) := by
-    simp only [m, Mon.costViaCopy]
-    rw [calls_getY _ hk, calls_k]
-    simp [Mon.getY]
-  refine ⟨h1, ?_⟩
-  intro hk1
-  rw [h1]
+  simp only [m, Mon.costViaCopy]
+  rw [calls_getY _ hk, calls_k]
+  simp only [Mon.getY, List.map_nil, List.nil_append, List.map_map]
   apply List.map_congr_left
   intro c _
-  rcases hk1 with rfl | rfl
-  · rfl
-  · simp only [cdiv]; exact PV.map_id' _ (fun v => by simp) c.y
-
-/-- the negation of the full claim on a concrete witness (`k = 2`, one record with cost `3`): the file holds `3/2` -/
-theorem support_cost_witness :
-    (Mon.calls ({ k := some (2 : ℚ) } : Mon ℚ) [⟨.vec [1, 2], .sc 3, none⟩]).costViaCopy = [.sc (3 / 2)] ∧
-    ((3 : ℚ) / 2 ≠ 3) := by
-  constructor
-  · simp only [Mon.calls, List.foldl, Mon.call, Mon.costViaCopy, Mon.getY, cmul, cdiv, PV.map, List.map, List.nil_append]
-    norm_num
-  · norm_num
+  exact y_transparent k hk c.y
 
 /-! ## non-vacuity: the hypotheses are met by concrete, non-trivial instances -/
 
@@ -467,6 +451,10 @@ example : rawToSupport [[1, 2, 3], [4, 5, 6]] = [[[1], [4]], [[2], [5]], [[3], [
 
 /-- prepending keeps the order of the prepended records (the literal `insert` loop) -/
 example : insertAll [7, 8] 0 [1, 2, 3] = [1, 2, 3, 7, 8] := by decide
+
+/-- a support/converge file of a monitor with `k = 2` and one record of cost `3` holds the cost `3` -/
+example : (Mon.calls ({ k := some (2 : ℚ) } : Mon ℚ) [⟨.vec [1, 2], .sc 3, none⟩]).costViaCopy = [.sc 3] := by
+  simpa using support_cost_spec (some (2 : ℚ)) (by simp) none [⟨.vec [1, 2], .sc 3, none⟩]
 
 /-- extend with two different scalings: costs 6 (k=2) and 20 (k=4) read back as 3 and 5 -/
 example :
